@@ -220,6 +220,19 @@ fn gen_model(g: &mut SplitMix64, n: usize, shape: u64) -> Model {
     Model { edges, biases }
 }
 
+/// `gen_model`, but with probability 1/4 (n >= 3) the last site appears in no edge and carries a non-zero bias
+/// (diluted lattice / bias-only site). Returns the model and the isolated site, if any.
+fn gen_model_iso(g: &mut SplitMix64, n: usize, shape: u64) -> (Model, Option<usize>) {
+    if n >= 3 && g.chance(1, 4) {
+        let mut m = gen_model(g, n - 1, shape);
+        m.biases.push(nonzero_dyadic(g, -2, 2, 8));
+        stat("graphs_with_isolated_biased_site", 1);
+        (m, Some(n - 1))
+    } else {
+        (gen_model(g, n, shape), None)
+    }
+}
+
 fn rand_state(g: &mut SplitMix64, n: usize) -> Vec<bool> {
     (0..n).map(|_| g.coin()).collect()
 }
@@ -245,6 +258,11 @@ fn usize_word(k: u64, n: u64) -> u64 {
 // traj
 // ------------------------------------------------------------------------------------------------
 fn traj_case(m: &Model, beta: f64, imp: bool, ns: Option<usize>, ne: Option<usize>, nw: Option<usize>, basic: bool, s0: &[bool], nsteps: usize, script: Vec<u64>, seed: u64) {
+    // the harness forces the kind of the first step with its first word: a worm step on a graph without
+    // biases must leave get_energy() unchanged (the worm closes at the coupling energy it started from, or is undone)
+    let first_is_worm = !basic && script.first() == Some(&u8_word(2, 3));
+    let zero_bias = m.biases.iter().all(|b| *b == 0.0);
+    let e_start = m.direct_energy(s0);
     let rng = Shared::recording(script, seed);
     let handle = rng.clone();
     let mm = m.clone();
@@ -263,6 +281,9 @@ fn traj_case(m: &Model, beta: f64, imp: bool, ns: Option<usize>, ne: Option<usiz
             }
             if (e - d).abs() > 1e-9 && oracle.is_ok() {
                 oracle = Err(format!("step {}: get_energy()={} but direct sum over edges and biases={} at state {}", step, e, d, bits(&s)));
+            }
+            if step == 0 && first_is_worm && zero_bias && (e - e_start).abs() > 1e-9 && oracle.is_ok() {
+                oracle = Err(format!("worm step without biases changed get_energy() from {} to {} (state {} -> {})", e_start, e, bits(&s0v), bits(&s)));
             }
             outs.push(format!("{} {}", bits(&s), rat(e)));
         }
@@ -295,7 +316,11 @@ fn mode_traj(a: &Args, g: &mut SplitMix64) {
         let imp = g.chance(1, 3);
         // worm steps (every third case) mostly on one-magnitude graphs, where worms travel
         let shape = if c as u64 % 3 == 2 && g.chance(2, 3) { 6 } else { g.below(7) };
-        let m = gen_model(g, n, shape);
+        let (mut m, _) = gen_model_iso(g, n, shape);
+        // worm-first cases: half without biases, where a worm update must conserve the reported energy
+        if c as u64 % 3 == 2 && g.coin() {
+            m.biases = vec![0.0; n];
+        }
         let beta = match g.below(8) {
             0 => 0.0,
             1 => 4.0,
@@ -344,11 +369,21 @@ fn mode_thr(a: &Args, g: &mut SplitMix64) {
     for _ in 0..ncases {
         let n = 2 + g.below(5) as usize;
         let shape = g.below(4);
-        let m = gen_model(g, n, shape);
+        let (m, iso) = gen_model_iso(g, n, shape);
         let beta = g.dyadic(0, 3, 8);
         let s0 = rand_state(g, n);
         let kind = g.below(2);
-        let (target, count) = if kind == 0 { (g.below(n as u64), n as u64) } else { (g.below(m.edges.len() as u64), m.edges.len() as u64) };
+        let (target, count) = if kind == 0 {
+            match iso {
+                Some(v) if g.coin() => {
+                    stat("thr_spin_isolated_site", 1);
+                    (v as u64, n as u64)
+                }
+                _ => (g.below(n as u64), n as u64),
+            }
+        } else {
+            (g.below(m.edges.len() as u64), m.edges.len() as u64)
+        };
         let prefix = vec![u8_word(kind, 3), usize_word(target, count)];
         let input = format!("thr {} {} {} {} {}", m.show(), rat(beta), if kind == 0 { "spin" } else { "edge" }, target, bits(&s0));
         let mm = m.clone();
@@ -399,7 +434,19 @@ fn mode_thr(a: &Args, g: &mut SplitMix64) {
                 let e1 = m.graph(&flipped, Shared::probe(&[]), false).get_energy();
                 let want = if e1 - e0 > 0.0 { (-beta * (e1 - e0)).exp() } else { 1.0 };
                 let got = if p == "nodraw" { 1.0 } else { p[1..].parse::<f64>().unwrap() };
-                let oracle = if (want - got).abs() <= 1e-9 && (p == "nodraw") == (e1 - e0 <= 0.0) {
+                // the proposal of the move: the chosen site (both endpoints of the chosen edge) flipped; with the
+                // uniform draw 0 (or without a draw) the proposal must have been accepted
+                let mut proposal = s0.clone();
+                if kind == 0 {
+                    proposal[target as usize] = !proposal[target as usize];
+                } else {
+                    let ((a, b), _) = m.edges[target as usize];
+                    proposal[a] = !proposal[a];
+                    proposal[b] = !proposal[b];
+                }
+                let oracle = if flipped != proposal {
+                    Err(format!("{} move on target {} with uniform draw 0 must be accepted and give {} but the state is {}", if kind == 0 { "spin" } else { "edge" }, target, bits(&proposal), bits(&flipped)))
+                } else if (want - got).abs() <= 1e-9 && (p == "nodraw") == (e1 - e0 <= 0.0) {
                     Ok(())
                 } else {
                     Err(format!("acceptance {} (draw: {}) but exp(-beta*(E_after-E_before)) = {} with reported energies {} -> {}", got, p != "nodraw", want, e0, e1))
@@ -510,6 +557,9 @@ struct Explorer<'a> {
     s0: Vec<bool>,
     runs: usize,
     nodes: usize,
+    kind: u64,
+    /// first violation of "a rejected worm leaves the state unchanged" seen while exploring
+    note: Option<String>,
 }
 type Obs = (usize, usize); // (index of final state, overrun)
 
@@ -624,6 +674,18 @@ impl<'a> Explorer<'a> {
             self.breaks(script, words[i], obs[i], words[i + 1], obs[i + 1], &mut b);
             pieces.extend(b);
         }
+        if self.kind == 2 && pieces.len() >= 2 && self.note.is_none() {
+            // worm: the only threshold draw is the final acceptance test; the piece of the largest words is
+            // "rejected" and must give back the start state
+            let (w, (fin, _)) = pieces[pieces.len() - 1];
+            if fin != state_index(&self.s0) {
+                let n = self.s0.len();
+                let name: String = (0..n).map(|i| if (fin >> (n - 1 - i)) & 1 == 1 { '1' } else { '0' }).collect();
+                let mut sc = script.clone();
+                sc.push(w);
+                self.note = Some(format!("rejected worm (acceptance draw word {}) left the state {} instead of the start state {}; script {}", w, name, bits(&self.s0), list(&sc)));
+            }
+        }
         for i in 0..pieces.len() {
             let start = pieces[i].0;
             let end: u128 = if i + 1 < pieces.len() { pieces[i + 1].0 as u128 } else { 1u128 << 64 };
@@ -638,20 +700,24 @@ impl<'a> Explorer<'a> {
 }
 
 /// kernel K[a][b] of one update of the given kind (0 spin, 1 edge, 2 worm) on all 2^n states
-fn real_kernel(m: &Model, beta: f64, imp: bool, kind: u64) -> Result<(Vec<Vec<f64>>, usize, usize), String> {
+fn real_kernel(m: &Model, beta: f64, imp: bool, kind: u64) -> Result<(Vec<Vec<f64>>, usize, usize, Option<String>), String> {
     let n = m.n();
     let ns = 1usize << n;
     let mut k = vec![vec![0.0; ns]; ns];
     let (mut runs, mut nodes) = (0, 0);
+    let mut note = None;
     for a in 0..ns {
         let s0: Vec<bool> = (0..n).map(|i| (a >> (n - 1 - i)) & 1 == 1).collect();
-        let mut ex = Explorer { m, beta, imp, s0, runs: 0, nodes: 0 };
+        let mut ex = Explorer { m, beta, imp, s0, runs: 0, nodes: 0, kind, note: None };
         let mut script = vec![u8_word(kind, 3)];
         ex.explore(&mut script, 1.0, &mut k[a], 0)?;
         runs += ex.runs;
         nodes += ex.nodes;
+        if note.is_none() {
+            note = ex.note;
+        }
     }
-    Ok((k, runs, nodes))
+    Ok((k, runs, nodes, note))
 }
 
 fn energies(m: &Model) -> Vec<f64> {
@@ -711,19 +777,88 @@ fn balance_oracle(m: &Model, beta: f64, k: &[Vec<f64>]) -> Result<(), String> {
     Ok(())
 }
 
+/// Metropolis specification of the spin / edge update, evaluated with the energies the real code reports:
+/// K(a,b) = sum over proposals p with p(a) = b of q_p * min(1, exp(-beta (E_b - E_a)))   (a != b),
+/// q_p = 1/N per site, 1/E per edge, or |J_e| / sum |J| with importance sampling.
+fn metropolis_oracle(m: &Model, beta: f64, imp: bool, kind: u64, k: &[Vec<f64>]) -> Result<(), String> {
+    let e = energies(m);
+    let n = m.n();
+    let ns = 1usize << n;
+    let bit = |i: usize| 1usize << (n - 1 - i);
+    let name = |a: usize| -> String { (0..n).map(|i| if a & bit(i) != 0 { '1' } else { '0' }).collect() };
+    let props: Vec<(usize, f64)> = if kind == 0 {
+        (0..n).map(|i| (bit(i), 1.0 / n as f64)).collect()
+    } else {
+        let tot = m.total_abs_j();
+        m.edges
+            .iter()
+            .map(|((a, b), j)| (bit(*a) ^ bit(*b), if imp && tot > 0.0 { j.abs() / tot } else { 1.0 / m.edges.len() as f64 }))
+            .collect()
+    };
+    for a in 0..ns {
+        let mut want = vec![0.0; ns];
+        for (mask, q) in &props {
+            let b = a ^ mask;
+            let de = e[b] - e[a];
+            let acc = if de > 0.0 { (-beta * de).exp().min(1.0) } else { 1.0 };
+            want[b] += q * acc;
+            want[a] += q * (1.0 - acc);
+        }
+        for b in 0..ns {
+            if (want[b] - k[a][b]).abs() > 1e-9 {
+                return Err(format!(
+                    "{} update: K({}->{}) measured {:.9} but the Metropolis rule with the reported energies {} -> {} gives {:.9}",
+                    if kind == 0 { "spin" } else { "edge" }, name(a), name(b), k[a][b], e[a], e[b], want[b]
+                ));
+            }
+        }
+    }
+    Ok(())
+}
+
+/// worm update on a graph without biases: only states of equal reported energy may be connected
+fn worm_conservation_oracle(m: &Model, k: &[Vec<f64>]) -> Result<(), String> {
+    if m.biases.iter().any(|b| *b != 0.0) {
+        return Ok(());
+    }
+    let e = energies(m);
+    let n = m.n();
+    let name = |a: usize| -> String { (0..n).map(|i| if (a >> (n - 1 - i)) & 1 == 1 { '1' } else { '0' }).collect() };
+    for a in 0..e.len() {
+        for b in 0..e.len() {
+            if k[a][b] > 1e-12 && (e[a] - e[b]).abs() > 1e-9 {
+                return Err(format!("worm update without biases goes {}->{} with probability {:.6} although get_energy differs: {} vs {}", name(a), name(b), k[a][b], e[a], e[b]));
+            }
+        }
+    }
+    Ok(())
+}
+
 fn kern_case(m: &Model, beta: f64, imp: bool, kind: u64, with_balance: bool) {
     let kname = ["spin", "edge", "worm"][kind as usize];
     let input = format!("kern {} {} {} {}", kname, m.show(), rat(beta), imp as u8);
     let mm = m.clone();
     let r = catch(move || real_kernel(&mm, beta, imp, kind));
     match r {
-        Ok(Ok((k, runs, nodes))) => {
+        Ok(Ok((k, runs, nodes, note))) => {
             stat(&format!("kern_{}", kname), 1);
             stat("kern_runs_of_real_code", runs);
             stat("kern_tree_nodes", nodes);
             let out = k.iter().flatten().map(|p| format!("~{:e}", p)).collect::<Vec<_>>().join(" ");
-            let oracle = if with_balance { Some(balance_oracle(m, beta, &k)) } else { Some(rows_oracle(&k)) };
-            emit(true, &input, &out, oracle);
+            let mut oracle = rows_oracle(&k);
+            if kind == 2 {
+                // model-free facts about the worm that hold despite the known findings F11 / F17
+                if let Some(n) = note {
+                    oracle = oracle.and(Err(n));
+                }
+                oracle = oracle.and_then(|_| worm_conservation_oracle(m, &k));
+            } else {
+                oracle = oracle.and_then(|_| metropolis_oracle(m, beta, imp, kind, &k));
+            }
+            if with_balance {
+                oracle = oracle.and_then(|_| balance_oracle(m, beta, &k));
+            }
+            emit(true, &input, &out, Some(oracle));
         }
         Ok(Err(why)) => {
             // the draw structure could not be recognised: no verdict (counted, never an alarm)
@@ -763,13 +898,25 @@ fn small_model(g: &mut SplitMix64, n: usize, imp: bool) -> Model {
     Model { edges, biases }
 }
 
+/// 3 spins, edges only between 0 and 1, site 2 isolated with a non-zero bias
+fn isolated_site_model(g: &mut SplitMix64) -> Model {
+    let mut m = small_model(g, 2, false);
+    m.biases.push(nonzero_dyadic(g, -1, 1, 4));
+    m
+}
+
 fn mode_kern(a: &Args, g: &mut SplitMix64) {
     let ncases = if a.thorough { 600 } else { 60 };
     for c in 0..ncases {
         let n = 2 + (c % 2) as usize;
         let kind = (c / 2) % 2;
         let imp = kind == 1 && g.chance(1, 2);
-        let m = small_model(g, n, imp);
+        let m = if c % 6 >= 4 {
+            stat("kern_isolated_biased_site", 1);
+            isolated_site_model(g)
+        } else {
+            small_model(g, n, imp)
+        };
         let beta = g.dyadic(0, 2, 4);
         kern_case(&m, beta, imp, kind as u64, true);
     }
@@ -903,6 +1050,54 @@ fn mode_regress_imp() {
     }
 }
 
+/// `util::vec_help::remove_doubles` through the cfg(qmc_verif) wrapper: on a sorted list a value is kept
+/// (once) iff it occurs an odd number of times — this is the set of net-flipped sites of a worm.
+fn mode_helpers(a: &Args, g: &mut SplitMix64) {
+    use qmc::sse::qmc_traits::rvb::verif_hooks::verif_remove_doubles;
+    let mut lists: Vec<Vec<usize>> = vec![vec![]];
+    // every multiplicity pattern 0..5 for up to three distinct values
+    for a0 in 0..=5usize {
+        for a1 in 0..=5usize {
+            for a2 in 0..=5usize {
+                let mut v = vec![];
+                v.extend(std::iter::repeat(1usize).take(a0));
+                v.extend(std::iter::repeat(4usize).take(a1));
+                v.extend(std::iter::repeat(7usize).take(a2));
+                lists.push(v);
+            }
+        }
+    }
+    for _ in 0..(if a.thorough { 2000 } else { 200 }) {
+        let mut v: Vec<usize> = (0..g.below(12)).map(|_| g.below(5) as usize).collect();
+        v.sort_unstable();
+        lists.push(v);
+    }
+    for v in lists {
+        let vv = v.clone();
+        let r = catch(move || verif_remove_doubles(vv));
+        let input = format!("rd {}", list(&v));
+        match r {
+            Ok(out) => {
+                let mut want = vec![];
+                let mut i = 0;
+                while i < v.len() {
+                    let mut j = i;
+                    while j < v.len() && v[j] == v[i] {
+                        j += 1;
+                    }
+                    if (j - i) % 2 == 1 {
+                        want.push(v[i]);
+                    }
+                    i = j;
+                }
+                let oracle = if out == want { Ok(()) } else { Err(format!("remove_doubles({}) = {} but the values of odd multiplicity are {}", list(&v), list(&out), list(&want))) };
+                emit(v.len() >= 2, &input, &list(&out), Some(oracle));
+            }
+            Err(p) => emit(true, &input, "PANIC", Some(Err(format!("panicked: {}", p)))),
+        }
+    }
+}
+
 fn main() {
     quiet_panics();
     let a = args();
@@ -911,6 +1106,7 @@ fn main() {
         "traj" => mode_traj(&a, &mut g),
         "thr" => mode_thr(&a, &mut g),
         "imp" => mode_imp(&a, &mut g),
+        "helpers" => mode_helpers(&a, &mut g),
         "kern" => mode_kern(&a, &mut g),
         "kernworm" => mode_kern_worm(&a, &mut g),
         "search-worm" => mode_search_worm(&a, &mut g),
